@@ -7,7 +7,7 @@ use crate::ops::{Op, Outcome};
 use crate::world::{Violation, World};
 use std::collections::BTreeSet;
 
-#[derive(Clone, Debug, Default)]
+#[derive(Clone, Default)]
 pub struct StepInfo {
     /// ok | err | panic | skipped
     pub outcome: &'static str,
@@ -18,6 +18,7 @@ pub struct StepInfo {
     pub cell: String,
     pub soft_mismatch: bool,
     pub err_text: String,
+    pub failed_post: Option<Box<World>>,
 }
 
 /// relation of b to a (Appendix A)
@@ -321,22 +322,41 @@ fn check_xml_ids(w: &World) -> Result<(), Violation> {
 pub struct StepCfg {
     /// check string_value of every Doc/Elem after each successful call
     pub string_values: bool,
+    /// keep the world of a failed step in `StepInfo::failed_post` (diagnosis, re-attribution)
+    pub keep_failed: bool,
 }
 
-/// Execute one operation. On violations the world is left as it was.
+fn fail(w2: World, mut info: StepInfo, cfg: &StepCfg) -> (Option<World>, StepInfo) {
+    if cfg.keep_failed {
+        info.failed_post = Some(Box::new(w2));
+    }
+    (None, info)
+}
+
+/// Execute one operation on a clone of the world (`Xot::clone` is the store
+/// fork); the clone is committed only if nothing was violated.
 pub fn step(w: &mut World, sid: u32, op: &Op, cfg: &StepCfg) -> StepInfo {
+    let (res, info) = step_owned(w.clone(), w, sid, op, cfg);
+    if let Some(n) = res {
+        *w = n;
+    }
+    info
+}
+
+/// Execute one operation on `w2` itself (moved in). `w` is an untouched copy of
+/// the state before. Returns the new world if nothing was violated.
+pub fn step_owned(mut w2: World, w: &World, sid: u32, op: &Op, cfg: &StepCfg) -> (Option<World>, StepInfo) {
     let mut info = StepInfo::default();
     if !args_live(w, op) {
         info.outcome = "skipped";
-        return info;
+        return (Some(w2), info);
     }
     if op.is_element_only() && w.model.k(op.node_args()[0]) != K::Elem {
         // documented panic of the element-only accessors: not exercised
         info.outcome = "skipped";
-        return info;
+        return (Some(w2), info);
     }
     info.cell = cell_of(&w.model, op);
-    let mut w2 = w.clone();
     w2.model.begin_op(sid);
     let pre_model = w2.model.clone();
     let exact = pre_model.exact_text_semantics() || matches!(op, Op::SetConsolidation { .. });
@@ -362,7 +382,7 @@ pub fn step(w: &mut World, sid: u32, op: &Op, cfg: &StepCfg) -> StepInfo {
             ));
             // a panic may also have left the store structurally broken: not
             // observable safely; the clone is discarded.
-            return info;
+            return fail(w2, info, cfg);
         }
         Outcome::Err(e) => {
             info.outcome = "err";
@@ -377,7 +397,7 @@ pub fn step(w: &mut World, sid: u32, op: &Op, cfg: &StepCfg) -> StepInfo {
                     "state-changed-after-Err",
                     format!("{} returned Err({}) but the forest changed: {} [cell {}]", op.name(), e, v.msg, info.cell),
                 ));
-                return info;
+                return fail(w2, info, cfg);
             }
             let before = w.serialise_roots();
             let after = w2.serialise_roots();
@@ -387,10 +407,9 @@ pub fn step(w: &mut World, sid: u32, op: &Op, cfg: &StepCfg) -> StepInfo {
                     "state-changed-after-Err",
                     format!("{} returned Err({}) but a tree serialises differently [cell {}]", op.name(), e, info.cell),
                 ));
-                return info;
+                return fail(w2, info, cfg);
             }
-            *w = w2;
-            info
+            (Some(w2), info)
         }
         Outcome::Ok(ret) => {
             info.outcome = "ok";
@@ -398,12 +417,12 @@ pub fn step(w: &mut World, sid: u32, op: &Op, cfg: &StepCfg) -> StepInfo {
                 Pred::Done(pl) if exact => {
                     if let Err(v) = w2.compare_with_model(ret, pl) {
                         info.violations.push(v);
-                        return info;
+                        return fail(w2, info, cfg);
                     }
                     if cfg.string_values {
                         if let Err(v) = check_string_values(&w2) {
                             info.violations.push(v);
-                            return info;
+                            return fail(w2, info, cfg);
                         }
                     }
                 }
@@ -418,12 +437,12 @@ pub fn step(w: &mut World, sid: u32, op: &Op, cfg: &StepCfg) -> StepInfo {
                     let extra: Vec<_> = ret.into_iter().collect();
                     if let Err(v) = w2.adopt(&extra) {
                         info.violations.push(v);
-                        return info;
+                        return fail(w2, info, cfg);
                     }
                     let ret_l = ret.and_then(|n| w2.rev.get(&n).copied());
                     if let Err(v) = check_adopt_constraint(op, &pre_model, &w2.model, ret_l) {
                         info.violations.push(v);
-                        return info;
+                        return fail(w2, info, cfg);
                     }
                     if let Op::Parse { .. } = op {
                         // remember xml:id values of the new document
@@ -443,12 +462,16 @@ pub fn step(w: &mut World, sid: u32, op: &Op, cfg: &StepCfg) -> StepInfo {
                     }
                 }
             }
+            if let Op::CloneNode { n } | Op::CloneWithPrefixes { n } = op {
+                if let Some(cl) = ret.and_then(|r| w2.rev.get(&r).copied()) {
+                    w2.clone_pairs.push((*n, cl));
+                }
+            }
             if let Err(v) = check_xml_ids(&w2) {
                 info.violations.push(v);
-                return info;
+                return fail(w2, info, cfg);
             }
-            *w = w2;
-            info
+            (Some(w2), info)
         }
     }
 }
